@@ -148,11 +148,32 @@ class Driver:
                 return md
 
             kwargs["md_normalizer"] = normalizer
+        managers = []
+        if recfg.get("context_managers") == "single_use":
+            # the documented seam for what surrounds each blocking stretch (default: the SIGINT handler): here a
+            # factory whose product can be entered once, like any @contextmanager function; entries/exits recorded
+            nmade = [0]
+
+            def factory(engine):
+                nmade[0] += 1
+                k = nmade[0]
+
+                @contextlib.contextmanager
+                def surround():
+                    sim.record("ctxmgr", what="enter", k=k)
+                    try:
+                        yield
+                    finally:
+                        sim.record("ctxmgr", what="exit", k=k)
+
+                return surround()
+
+            managers = [factory]
         self.RE = RunEngine(
             self.md,
             loop=sim.loop,
             during_task=DuringTask(),
-            context_managers=[],
+            context_managers=managers,
             call_returns_result=bool(recfg.get("call_returns_result", False)),
             **kwargs,
         )
